@@ -203,6 +203,46 @@ static void part_gauss(const std::vector<unsigned>& ns, bool mixtures) {
     R.bound_done(std::string("gauss: n x nb x 3 extents x 9 means x 9 widths") + (mixtures ? " x {single, two-component mixture}" : "") + ", every bunch in turn, two variants of the other bunches");
 }
 
+// part=builtin : the distribution the constructor itself makes (a Gaussian of width `zoom` about the axis zero in both planes, one per filled bucket): "for a
+// Gaussian of given mean and width inside the grid, that mean and width up to discretisation error", and each bunch holds its share
+static void part_builtin(const std::vector<unsigned>& ns) {
+    const double zooms[] = {0.5, 0.75, 1.0, 1.25, 1.5, 2.0};
+    for (unsigned n : ns) for (unsigned nb = 1; nb <= 3; nb++) for (int ex = 0; ex < 3; ex++) for (double zoom : zooms) for (unsigned fi = 0; fi < fillings(nb).size(); fi++) {
+        const Ext& E = EXTS[ex];
+        const double dq = (E.qmax - E.qmin) / (n - 1.0), dp = (E.pmax - E.pmin) / (n - 1.0);
+        if (zoom < 2.5 * dq || zoom < 2.5 * dp) continue;                       // not resolved
+        std::string kase = mcx::Desc()("part", "builtin")("n", n)("nb", nb)("extent", E.name)("zoom", zoom)("filling", fi).str();
+        if (!R.mine(kase)) continue;
+        if (R.out_of_time()) { R.not_completed = kase; return; }
+        set_size(n, nb);
+        std::vector<float> fill = fillings(nb)[fi];
+        auto ps = mkps(E.qmin, E.qmax, E.pmin, E.pmax, fill, nullptr, zoom);
+        ps->variance(0); ps->variance(1);
+        float res[4 * 3];
+        for (unsigned b = 0; b < nb; b++) { res[4 * b] = ps->getMoment(0, 0)[b]; res[4 * b + 1] = ps->getBunchLength()[b]; res[4 * b + 2] = ps->getMoment(1, 0)[b]; res[4 * b + 3] = ps->getEnergySpread()[b]; }
+        R.eval(kase, mcx::fnv(res, 16 * nb, mcx::fnvs(kase)), false);
+        check_pop(kase, *ps, fill, n, "builtin");
+        for (unsigned b = 0; b < nb; b++) {
+            if (!(fill[b] > 0)) continue;
+            const double want[4] = {0, zoom, 0, zoom};
+            const char* nm[4] = {"position", "length", "mean-energy", "energy-spread"};
+            for (int k = 0; k < 4; k++) {
+                const double lo = (k < 2 ? E.qmin : E.pmin), hi = (k < 2 ? E.qmax : E.pmax), d = (k < 2 ? dq : dp);
+                const double z = std::min(0 - lo, hi - 0) / zoom, phi = std::exp(-0.5 * z * z) / std::sqrt(2 * M_PI), Q = 0.5 * std::erfc(z / std::sqrt(2.0));
+                if (z < 2.5) continue;                                               // more than half a percent of the charge beyond the edge: not "inside the grid"
+                const double cut = 2 * zoom * ((k % 2) ? 0.5 * (z * phi + Q) : phi);
+                const double tol = 0.0125 * d * d + 5e-5 * (hi - lo) / 12 + cut, err = std::fabs(res[4 * b + k] - want[k]);
+                R.maxnum("worst_builtin_moment_error_over_tol", err / tol);
+                if (!(err <= tol)) {
+                    char dd[200]; snprintf(dd, 200, "bunch %u %s of the built-in Gaussian (zoom %.3g): reported %.9g, expected %.9g (cell %.4g, tol %.3g)", b, nm[k], zoom, res[4 * b + k], want[k], d, tol);
+                    R.violate(std::string("C09/builtin/") + nm[k] + (nb > 1 ? "/nb>1" : "/nb=1"), kase, dd);
+                }
+            }
+        }
+    }
+    R.bound_done("builtin: n x nb x 3 extents x 6 zoom factors x all filling patterns of the lattice: moments = (0, zoom) per plane, populations = shares");
+}
+
 // part=large : large grids (512, 1024 cells) with narrow bunches (2.5 - 6 cells rms) anywhere on the grid, also near its upper end: the moments are the
 // moments of the projections (double-precision reference on the same projections, relative 2e-4 on the widths) and those of the Gaussian
 static void part_large(const std::vector<unsigned>& ns) {
@@ -408,6 +448,7 @@ int main(int argc, char** argv) {
     part_norm(D ? std::vector<unsigned>{8, 9, 16, 17, 24, 32, 33} : std::vector<unsigned>{8, 9, 16, 17, 24});
     part_gauss(D ? std::vector<unsigned>{32, 33, 48, 64, 65, 96, 128, 129} : std::vector<unsigned>{32, 33, 48, 64, 65, 96}, T);
     part_copy(T ? std::vector<unsigned>{8, 9, 16, 17, 32, 33} : std::vector<unsigned>{8, 9, 16});
+    part_builtin(D ? std::vector<unsigned>{32, 33, 48, 64, 65, 96, 128} : std::vector<unsigned>{32, 33, 64, 65});
     part_large(D ? std::vector<unsigned>{512, 1024, 2048} : std::vector<unsigned>{512, 1024});
     part_hist(D ? 6 : 5);
     return R.finish();
